@@ -104,6 +104,103 @@ Section Runs.
         * cbn [length] in Hpv. lia.
   Qed.
 
+  (* what the two break modes guarantee: inside a run no field (but the first) may be
+     preceded by alignment padding [bpad]; only the last field of a run is a span [bspan] *)
+  Definition tight (L0 : list param) (pv0 : list Z) (R : list ridx) : Prop :=
+    forall k e, nth k R RSkip = REnd e ->
+      (forall j, (k < j <= e)%nat -> bpad = true -> (nth j pv0 0 <? pal (nth j L0 pparam0)) = false) /\
+      (forall j, (k <= j < e)%nat -> bspan = true -> is_plain (nth j L0 pparam0) = true).
+
+  Lemma runs_from_tight : forall L pre prepv pv i index acc,
+    let L0 := pre ++ L in let pv0 := prepv ++ pv in
+    length pre = i -> length prepv = i -> length acc = length L0 ->
+    (index <= i)%nat ->
+    (index < i -> nth index acc RSkip = REnd (i - 1))%nat ->
+    (index < i -> bspan = true -> forall j, (index <= j < i)%nat -> is_plain (nth j L0 pparam0) = true)%nat ->
+    (forall k e, nth k acc RSkip = REnd e -> (k <= e < i)%nat) ->
+    tight L0 pv0 acc ->
+    (length L <= length pv)%nat ->
+    tight L0 pv0 (runs_from pred bpad bspan L pv i index acc).
+  Proof.
+    induction L as [|p L IH]; intros pre prepv pv i index acc L0 pv0 Hpre Hppv Hacc Hidx Hopen Hplain Hb Ht Hpv.
+    - cbn [runs_from]. exact Ht.
+    - destruct pv as [|pt pv]; [cbn [length] in Hpv; lia|].
+      assert (Hi : (i < length L0)%nat) by (subst L0; rewrite app_length, Hpre; cbn [length]; lia).
+      assert (Hnth : nth i L0 pparam0 = p).
+      { subst L0. rewrite app_nth2 by lia. rewrite Hpre, Nat.sub_diag. reflexivity. }
+      assert (Hnpv : nth i pv0 0 = pt).
+      { subst pv0. rewrite app_nth2 by lia. rewrite Hppv, Nat.sub_diag. reflexivity. }
+      assert (HL0 : L0 = (pre ++ [p]) ++ L) by (subst L0; rewrite <- app_assoc; reflexivity).
+      assert (Hpv0 : pv0 = (prepv ++ [pt]) ++ pv) by (subst pv0; rewrite <- app_assoc; reflexivity).
+      cbn [runs_from]. destruct (pred p) eqn:Hp.
+      + destruct (bpad && negb (Nat.eqb i 0) && (pt <? pal p)) eqn:Hc.
+        * (* a new run starts at i *)
+          set (acc1 := upd i (REnd i) acc).
+          set (index2 := if bspan && negb (is_plain p) then S i else i).
+          rewrite HL0, Hpv0. apply IH; rewrite <- ?HL0, <- ?Hpv0.
+          -- rewrite app_length, Hpre. cbn [length]. lia.
+          -- rewrite app_length, Hppv. cbn [length]. lia.
+          -- subst acc1. rewrite upd_length. exact Hacc.
+          -- subst index2. destruct (bspan && negb (is_plain p)); lia.
+          -- intros Hlt. subst index2. destruct (bspan && negb (is_plain p)); [lia|].
+             replace (S i - 1)%nat with i by lia. subst acc1. apply upd_nth_same. lia.
+          -- intros Hlt Hbs j Hj. subst index2. rewrite Hbs in *. cbn [andb] in *.
+             destruct (is_plain p) eqn:Epl; cbn [negb] in *; [|lia].
+             assert (j = i) by lia. subst j. rewrite Hnth. exact Epl.
+          -- intros k e Hk. subst acc1. destruct (Nat.eq_dec k i) as [->|E].
+             ++ rewrite upd_nth_same in Hk by lia. injection Hk as <-. lia.
+             ++ rewrite upd_nth_other in Hk by congruence. specialize (Hb _ _ Hk). lia.
+          -- intros k e Hk. subst acc1. destruct (Nat.eq_dec k i) as [->|E].
+             ++ rewrite upd_nth_same in Hk by lia. injection Hk as <-. split; intros j Hj; lia.
+             ++ rewrite upd_nth_other in Hk by congruence. exact (Ht _ _ Hk).
+          -- cbn [length] in Hpv. lia.
+        * (* field i joins the open run (or opens one when there is none) *)
+          set (acc1 := upd index (REnd i) acc).
+          set (index2 := if bspan && negb (is_plain p) then S i else index).
+          assert (Hjoin : bpad = true -> (index < i)%nat -> (pt <? pal p) = false).
+          { intros Hbp Hlt. rewrite Hbp in Hc. cbn [andb] in Hc.
+            destruct (Nat.eqb i 0) eqn:E0; [apply Nat.eqb_eq in E0; lia|]. cbn [negb andb] in Hc. exact Hc. }
+          rewrite HL0, Hpv0. apply IH; rewrite <- ?HL0, <- ?Hpv0.
+          -- rewrite app_length, Hpre. cbn [length]. lia.
+          -- rewrite app_length, Hppv. cbn [length]. lia.
+          -- subst acc1. rewrite upd_length. exact Hacc.
+          -- subst index2. destruct (bspan && negb (is_plain p)); lia.
+          -- intros Hlt. subst index2. destruct (bspan && negb (is_plain p)); [lia|].
+             replace (S i - 1)%nat with i by lia. subst acc1. apply upd_nth_same. lia.
+          -- intros Hlt Hbs j Hj. subst index2. rewrite Hbs in *. cbn [andb] in *.
+             destruct (is_plain p) eqn:Epl; cbn [negb] in *; [|lia].
+             destruct (Nat.eq_dec j i) as [->|Ej]; [rewrite Hnth; exact Epl|].
+             apply Hplain; [lia|reflexivity|lia].
+          -- intros k e Hk. subst acc1. destruct (Nat.eq_dec k index) as [->|E].
+             ++ rewrite upd_nth_same in Hk by lia. injection Hk as <-. lia.
+             ++ rewrite upd_nth_other in Hk by congruence. specialize (Hb _ _ Hk). lia.
+          -- intros k e Hk. subst acc1. destruct (Nat.eq_dec k index) as [->|E].
+             ++ rewrite upd_nth_same in Hk by lia. injection Hk as <-.
+                destruct (Nat.eq_dec index i) as [Ei|Ei]; [split; intros j Hj; lia|].
+                assert (Hlt : (index < i)%nat) by lia.
+                destruct (Ht _ _ (Hopen Hlt)) as [T1 T2]. split.
+                ** intros j Hj Hbp. destruct (Nat.eq_dec j i) as [->|Ej].
+                   --- rewrite Hnth, Hnpv. apply Hjoin; assumption.
+                   --- apply T1; [lia|exact Hbp].
+                ** intros j Hj Hbs. apply Hplain; [exact Hlt|exact Hbs|lia].
+             ++ rewrite upd_nth_other in Hk by congruence. exact (Ht _ _ Hk).
+          -- cbn [length] in Hpv. lia.
+      + rewrite HL0, Hpv0. apply IH; rewrite <- ?HL0, <- ?Hpv0.
+        * rewrite app_length, Hpre. cbn [length]. lia.
+        * rewrite app_length, Hppv. cbn [length]. lia.
+        * rewrite upd_length. exact Hacc.
+        * lia.
+        * lia.
+        * lia.
+        * intros k e Hk. destruct (Nat.eq_dec k i) as [->|E].
+          -- rewrite upd_nth_same in Hk by lia. discriminate.
+          -- rewrite upd_nth_other in Hk by congruence. specialize (Hb _ _ Hk). lia.
+        * intros k e Hk. destruct (Nat.eq_dec k i) as [->|E].
+          -- rewrite upd_nth_same in Hk by lia. discriminate.
+          -- rewrite upd_nth_other in Hk by congruence. exact (Ht _ _ Hk).
+        * cbn [length] in Hpv. lia.
+  Qed.
+
   Lemma nth_repeat_skip n j : nth j (repeat RSkip n) RSkip = RSkip.
   Proof. revert j. induction n as [|n IH]; intros [|j]; cbn [repeat nth]; auto. Qed.
 
@@ -125,6 +222,16 @@ Section Runs.
     all: try (rewrite repeat_length; reflexivity).
     all: try (split; [intros k e H|intros k H]; rewrite nth_repeat_skip in H; discriminate).
     all: try (unfold prevs, trails; cbn [length]; rewrite trails_from_length; lia).
+  Qed.
+  Theorem runs_tight (L : list param) : tight L (prevs L) (runs pred bpad bspan L).
+  Proof.
+    unfold runs.
+    pose proof (runs_from_tight L [] [] (prevs L) O O (repeat RSkip (length L))) as Hinv.
+    cbv zeta in Hinv. cbn [app] in Hinv. apply Hinv; try reflexivity; try lia.
+    - rewrite repeat_length. reflexivity.
+    - intros k e H. rewrite nth_repeat_skip in H. discriminate.
+    - intros k e H. rewrite nth_repeat_skip in H. discriminate.
+    - unfold prevs, trails. cbn [length]. rewrite trails_from_length. lia.
   Qed.
 End Runs.
 
